@@ -115,28 +115,25 @@ func ParseDenomFromSendPacket(packet transfertypes.FungibleTokenPacketData) stri
 //	        -> Remove Prefix: transfer/channel-Z/ujuno
 //	        -> Hash:          ibc/...
 func ParseDenomFromRecvPacket(packet channeltypes.Packet, packetData transfertypes.FungibleTokenPacketData) string {
-	sourcePort := packet.SourcePort
-	sourceChannel := packet.SourceChannel
+	// Mirror the denomination decision of the ICS-20 receive logic (transfer keeper OnRecvPacket):
+	// parse the packet denom into trace and base exactly once, then either remove the first hop
+	// (source: the token is returning over the channel it left on) or prepend the destination
+	// hop (sink). Doing this on the parsed denom rather than on the raw string guarantees that
+	// the rate limiter charges the same denom that ICS-20 unescrows or mints.
+	denom := transfertypes.ExtractDenomFromPath(packetData.Denom)
 
-	// To determine the denom, first check whether Stride is acting as source
-	// Build the source prefix and check if the denom starts with it
-	hop := transfertypes.NewHop(sourcePort, sourceChannel)
-	sourcePrefix := hop.String() + "/"
-
-	if strings.HasPrefix(packetData.Denom, sourcePrefix) {
-		// Remove the source prefix (e.g. transfer/channel-X/transfer/channel-Z/ujuno -> transfer/channel-Z/ujuno)
-		unprefixedDenom := packetData.Denom[len(sourcePrefix):]
-
-		// Native assets will have an empty trace path and can be returned as is
-		denom := transfertypes.ExtractDenomFromPath(unprefixedDenom)
-		return denom.IBCDenom()
+	if denom.HasPrefix(packet.GetSourcePort(), packet.GetSourceChannel()) {
+		// Remove the prefix added by the sender chain
+		// (e.g. transfer/channel-X/transfer/channel-Z/ujuno -> transfer/channel-Z/ujuno)
+		// Native assets are left with an empty trace and are returned as is
+		denom.Trace = denom.Trace[1:]
+	} else {
+		// Prefix the destination port and channel (e.g. uosmo -> transfer/channel-X/uosmo)
+		trace := []transfertypes.Hop{transfertypes.NewHop(packet.GetDestPort(), packet.GetDestChannel())}
+		denom.Trace = append(trace, denom.Trace...)
 	}
-	// Prefix the destination channel - this will contain the trailing slash (e.g. transfer/channel-X/)
-	destinationPrefix := transfertypes.NewHop(packet.GetDestPort(), packet.GetDestChannel())
-	prefixedDenom := destinationPrefix.String() + "/" + packetData.Denom
 
-	// Hash the denom trace
-	denom := transfertypes.ExtractDenomFromPath(prefixedDenom)
+	// Native denoms are returned as is, everything else as the hash of the trace path
 	return denom.IBCDenom()
 }
 
